@@ -31,8 +31,10 @@ pub open spec fn tbl_wf(t: &Table) -> bool {
             ==> fbr_answer(&fr, m.handles[i].offset, #[trigger] m.blocks[i][j].k.user)
 }
 
-// ASSUMED (A-cache, A-snap, U09 block codec): the block reader obtained for the handle of index
-// entry i (from the block cache or from disk via read_block_from_disk + BlockReader::new) holds
+// ASSUMED (the link between the table MODEL and the file's bytes; its byte-level half is under
+// contract: U42 `Table::get_block_reader` - cache hit, disk read + caching or disk read only all
+// hand out a reader of a CRC-checked block of this table's file at the handle's offset - U09 the
+// disk read, U30 the block codec): the block reader obtained for the handle of index entry i holds
 // exactly the entries of data block i of the model.
 impl Table {
     #[verifier::external_body]
